@@ -12,7 +12,7 @@ open ZnVerif.Model ZnVerif.Proofs.Calls
 variable {ν : Type} [NumOps ν]
 
 section mutualBlock
-variable {R : VM ν → VM ν → Prop} [ScopePrims R]
+variable {R : VM ν → VM ν → Prop} [ScopePrims0 R]
 
 theorem evalExpr_succ (n : Nat) (ih : AllPres R n) (e : Expr) : Pres R (evalExpr (ν := ν) (n+1) e) := by
   cases e <;> rw [Model.evalExpr] <;> pres_ih ih <;> contradiction
